@@ -40,13 +40,18 @@ type LeaseStats struct {
 }
 
 func lockID(i int) wtxmgr.LockID {
+	// identifier 0 is the all-zero LockID (a legal identifier that code may
+	// be tempted to use as "no lock")
 	var id wtxmgr.LockID
+	if i == 0 {
+		return id
+	}
 	id[0] = byte(0xA0 + i)
-	id[31] = byte(i + 1)
+	id[31] = byte(i)
 	return id
 }
 
-func lockIndex(id wtxmgr.LockID) int { return int(id[31]) - 1 }
+func lockIndex(id wtxmgr.LockID) int { return int(id[31]) }
 
 // Targets returns the lease targets of a universe: every credited output,
 // every uncredited output, and one outpoint the wallet never heard of.
